@@ -114,6 +114,12 @@ def step (st : Slots) : String → List Tok → Option (Slots × List Tok)
       let ok := decide (o.exp ≤ 0) && decide (val o.d < B ^ o.size) && o.d.length == o.size
                 && (o.size == 0 || o.d.getLast! != 0) && (o.size != 0 || o.exp == 0)
       pure (put st i (some p.2), checked ok [natTok o.size, .num o.exp, .vec o.d])
+  | "@same", [.num i, .num j, .num n] => do
+      let g ← slot? st i; let h ← slot? st j; if n < 0 ∨ i == j then none
+      let p := urandomb g n.toNat; let q := urandomb h n.toNat
+      let st := put (put st i (some p.2)) j (some q.2)
+      -- the history put both slots in the same state (same algorithm + same seed, or a copy)
+      pure (st, if p.1 == q.1 then checked (p.1 < 2 ^ n.toNat) [natTok 1, natTok p.1] else [Tok.err "diverge", natTok p.1, natTok q.1])
   | "@freq", [.num i, .num nbits, .num draws] => do
       let g ← slot? st i; if nbits < 8 ∨ draws < 1 then none
       let r := freq g nbits.toNat draws.toNat
